@@ -47,6 +47,11 @@ def canon(x, depth=0, seen=None):
         return ('exc', type(x).__name__)
     if isinstance(x, (types.FunctionType, types.BuiltinFunctionType, types.MethodType, type, types.ModuleType)):
         return ('ref', getattr(x, '__module__', ''), getattr(x, '__qualname__', getattr(x, '__name__', '')))
+    if hasattr(x, 'cache_info') and callable(getattr(x, 'cache_info')):
+        try:
+            return ('lru', repr(x.cache_info()))
+        except Exception:
+            pass
     if hasattr(x, 'isoformat'):
         return ('date', x.isoformat())
     if hasattr(x, '__dict__'):
@@ -121,6 +126,9 @@ def snap_modules(exclude_constants=True):
             if id(v) in reg_ids:
                 continue
             if isinstance(v, types.ModuleType):
+                continue
+            if hasattr(v, 'cache_info') and not isinstance(v, type):
+                items.append((k, canon(v)))
                 continue
             if isinstance(v, (types.FunctionType,)):
                 if getattr(v, '__module__', None) == mname:
